@@ -18,6 +18,12 @@ func (sc *SpecCtx) kindSig(kind string) *types.Signature {
 			return s
 		}
 	}
+	// a contracted function of the package, by short name (modular calls are logged under it)
+	for n := range e.contracts {
+		if fn := e.P.Funcs[n]; fn != nil && fn.Name() == kind {
+			return fn.Signature
+		}
+	}
 	// Iface.Method or Struct.field (a trailing [] selects the element type of a slice-of-funcs field)
 	if i := strings.LastIndex(kind, "."); i > 0 {
 		tn, mn := kind[:i], kind[i+1:]
@@ -79,6 +85,45 @@ func (sc *SpecCtx) call(x *SExpr) Val {
 		saved := sc.cur
 		sc.cur = sc.old
 		v := sc.eval(args[0])
+		sc.cur = saved
+		return v
+	case "tok": // tok(k): the current thread holds the build token of key k
+		k := sc.eval(args[0])
+		if sc.grant {
+			// a precondition of the function under verification: the caller hands the token over
+			st.tokens = append(st.tokens, buildTok{key: k.C[0], typ: "*"})
+			return mkBool("true")
+		}
+		return mkBool(st.tokHeld(k.C[0]))
+	case "notokens": // no token is held
+		if len(st.tokens) == 0 {
+			return mkBool("true")
+		}
+		return mkBool("false")
+	case "klKey": // ghost: the key a key-lock object was created for
+		v := sc.eval(args[0])
+		return mkStr(fmt.Sprintf("(klkey %s)", v.C[0]))
+	case "prov": // prov(k, v): value v has provenance for key k (backend content or successful build)
+		k, v := sc.eval(args[0]), sc.eval(args[1])
+		if len(v.C) == 1 {
+			v = st.makeInterface(v, types.NewInterfaceType(nil, nil))
+		}
+		return mkBool(fmt.Sprintf("(prov %s %s %s)", k.C[0], v.C[0], v.C[1]))
+	case "errProv": // errProv(k, e): error e was produced by the backend or a builder for key k
+		k, v := sc.eval(args[0]), sc.eval(args[1])
+		return mkBool(fmt.Sprintf("(errprov %s %s %s)", k.C[0], v.C[0], v.C[1]))
+	case "satsub": // Go's saturating time subtraction
+		a, b2 := sc.eval(args[0]), sc.eval(args[1])
+		return Val{T: tInt64, C: []string{satSub(a.C[0], b2.C[0])}}
+	case "lockedAt": // lockedAt(n, e): value of e right after the n-th lock acquisition of this call (entry value if fewer)
+		n := sc.intLit(args[0])
+		saved := sc.cur
+		if n >= 1 && n <= len(st.lockSnaps) {
+			sc.cur = st.lockSnaps[n-1]
+		} else {
+			sc.cur = sc.old
+		}
+		v := sc.eval(args[1])
 		sc.cur = saved
 		return v
 	case "locked": // value of an expression right after the most recent lock acquisition of this call
@@ -178,6 +223,9 @@ func (sc *SpecCtx) call(x *SExpr) Val {
 		ctx := sc.eval(args[0])
 		tag, val := st.ctxValue(ctx, st.ctxKey("ttlCtxKey"))
 		dt := types.NewPointer(st.durationType())
+		if sc.bound == 0 && sc.cur == nil {
+			st.instantiateForArray(heapName(e, st.durationType(), ""), val)
+		}
 		cell := sel(sc.arr(heapName(e, st.durationType(), ""), arrSort(SInt)), val)
 		return Val{T: st.durationType(), C: []string{ite(eq(tag, e.typeTag(dt)), cell, "0")}}
 	case "durAt": // content of a *time.Duration cell
@@ -201,6 +249,9 @@ func (sc *SpecCtx) call(x *SExpr) Val {
 			b = st.makeInterface(b, a.T)
 		}
 		return mkBool(st.errIsTerm(a, b))
+	case "isError": // isError(v): the dynamic type of interface value v implements error (v is non-nil)
+		v := sc.eval(args[0])
+		return mkBool(st.implementsTerm(v.C[0], types.Universe.Lookup("error").Type()))
 	case "dyntype": // dyntype(x, T): dynamic type of interface value x is T
 		v := sc.eval(args[0])
 		t := sc.resolveType(sc.typeArg(args[1]))
